@@ -2,7 +2,7 @@
    Statements only; proofs in IRCP.RegP. *)
 From stdpp Require Import gmap.
 From IRC Require Import Str Wild Parse Reply State Handlers Step.
-From IRCP Require Import RegP.
+From IRCP Require Import RegP InvDefs Reach AuthGlobal.
 
 Section C03.
 Context (cfg : config) (verify : str -> str -> bool) (i : nat).
@@ -88,6 +88,24 @@ Theorem C03_refused_is_inert : forall s c l r,
   h_sh r = s /\ Forall (fun x => x.1 = i) (h_out r).
 Proof. exact (process_line_unauth_inert cfg verify i). Qed.
 
+(* for every history: in every reachable world whoever is in the user table - whatever the order of PASS / NICK / USER /
+   CAP, however many refused attempts, nick changes and other people's commands came before - is owned by a connection that
+   is marked registered, carries that nick and the user name it registered under, and holds a password that verifies against
+   the hash applying to that name (the configured user's, else the server's); with no hash configured there is nothing to
+   verify *)
+Theorem C03_registered_only_with_password : forall w n u, reachable cfg verify w -> users (sh w) !! n = Some u ->
+  exists c, conns w !! u_conn u = Some c /\ c_auth c = true /\ c_nick c = Some n /\ c_name c = Some (u_name u) /\
+    match applicable_password cfg (u_name u) with
+    | Some hash => exists p, c_pass c = Some p /\ verify p hash = true
+    | None => True
+    end.
+Proof. exact (registered_users_passed cfg verify). Qed.
+
+(* ... because the mark "registered" implies "password verified" before and after every event of every connection *)
+Theorem C03_password_mark_kept_by_every_step : forall w j e w' o cl, Inv w -> AuthW cfg verify w ->
+  step cfg verify w j e = Ok (w', o, cl) -> AuthW cfg verify w'.
+Proof. exact (step_auth cfg verify). Qed.
+
 End C03.
 
 Print Assumptions C03_gate.
@@ -96,3 +114,5 @@ Print Assumptions C03_registration_only_if.
 Print Assumptions C03_registration_if.
 Print Assumptions C03_bad_password_closes.
 Print Assumptions C03_refused_is_inert.
+Print Assumptions C03_registered_only_with_password.
+Print Assumptions C03_password_mark_kept_by_every_step.
